@@ -373,7 +373,7 @@ void checkOracles(const Desc& d, const Obs& o, RunResult& r) {
         if (c.shuffle == 0 && started.size() == nSel) {
             bool okOrder = true;
             for (size_t i = 1; i < started.size(); i++) { if (c.reverse ? started[i].test > started[i - 1].test : started[i].test < started[i - 1].test) okOrder = false; }
-            if (!okOrder) r.fail("C02", "order", sigOf("what", c.reverse ? "reverse order" : "registration order"), sfmt("rep %zu", rp));
+            if (!okOrder && d.pi("prologue") != 3) r.fail("C02", "order", sigOf("what", c.reverse ? "reverse order" : "registration order"), sfmt("rep %zu", rp));      // (after an earlier invocation that shuffled, the registry's order is whatever that one left: the property fixes no order across invocations)
         }
         // counts (C02 counter identity; C01 true counts)
         if (rp < o.sums.size()) {
